@@ -645,6 +645,12 @@ def write_evidence(machine, tier, verif_seed, merged, n_reported, known_matched,
     with open(tmp, "w") as f:
         json.dump(doc, f, indent=1, sort_keys=True, default=str)
     os.replace(tmp, path)
+    if tier == "thorough":
+        # keep a copy that later quick runs do not overwrite
+        keep = os.path.join(ev_dir, "thorough")
+        os.makedirs(keep, exist_ok=True)
+        with open(os.path.join(keep, machine.PID + ".json"), "w") as f:
+            json.dump(doc, f, indent=1, sort_keys=True, default=str)
     return path
 
 
